@@ -1,28 +1,171 @@
 import Mathlib.Tactic
+import Sentinel.Lemmas.AggregatorLog
+import Sentinel.Props.C17
 import Sentinel.Model.Aggregator
+/-!
+# AGG — the metric aggregator bridge: what happened on a resource in a second is what the metric log says
+(an internal check reported under C17; property-level statements only, helpers in `Sentinel/Lemmas/Aggregator*.lean`)
+
+Reading guide.  `evs : List Agg.Ev` is a history of recordings `rcd t res cls x` (resource, classification given at the
+first use, payload `x` as in C08) and aggregator ticks `tick t` (`doAggregate()` at clock reading `t`, then the drained map
+written as `writeTaskLoop` does).  `run (St.new n L T0 maxSize maxFiles) evs` is the state of the code-shaped model the
+driver executes (`Model/Aggregator.lean`, which *is* C08's `Arr Bucket` / `secondItems` per node and C17's
+`Writer`): created at `T0` with node geometry `n × L`, the inbound node, no fetch yet, a fresh writer.
+`fin.written` is the list of all `metricWriter.Write(t, items)` calls, `allItems` their items in order.
+
+* `MonoEv T0 evs`       — time never goes backwards;
+* `TicksOK n L T0 s evs` — every fetching tick arrives while its window is still inside the arrays:
+  `t < max lastFetch (second of T0) + n·L` — **the exact bound the code needs** (`ticksOK_of_gap`: implied by ticks at most
+  `n·L − 1000` ms apart; `gap_bound_tight_witness`: one millisecond more loses data);
+* `L ∣ 1000`            — buckets tile the second (library default 500; `nonaligned_bucket_witness` otherwise);
+* the reference of `(res, sec)` is `secRef (eventsOf res evs) sec`: the sum of the payloads recorded on `res` with a time stamp in
+  that second; `refItem` is the `MetricItem` built from it (`toItem`: counters, `avgRt`, peak concurrency, name, classification).
+-/
 namespace Sentinel.AGG
-open Sentinel.LA Sentinel.MetricLog Sentinel.Agg
+open Sentinel.LA Sentinel.MetricLog Sentinel.Agg Sentinel.C17
 
-theorem runWrites_append (w : Writer) (a b : List (Nat × List Item)) :
-    runWrites w (a ++ b) = runWrites (runWrites w a) b := by
-  simp [runWrites, List.foldl_append]
+section main
+variable (n L T0 maxSize maxFiles : Nat) (hn : 0 < n) (hL : 0 < L) (hd : L ∣ 1000) (hT0 : 0 < T0)
+  (evs : List Agg.Ev) (mono : MonoEv T0 evs) (ok : TicksOK n L T0 (St.new n L T0 maxSize maxFiles) evs)
+include hn hL hd hT0 mono ok
 
-/-- the writer state is the fold of `Write` over the ghost history `written` -/
-theorem step_written (w0 : Writer) (s : St) (ev : Agg.Ev) (h : s.w = runWrites w0 s.written) :
-    (step s ev).w = runWrites w0 (step s ev).written := by
-  cases ev with
-  | rcd t res cls x => simpa [step, record] using h
-  | tick t =>
-    unfold step aggregate
-    dsimp only
-    split_ifs
-    · exact h
-    · simp only [runWrites_append, h]
+theorem final_inv : ∃ now, SysInv n L T0 (run (St.new n L T0 maxSize maxFiles) evs) evs now := by
+  obtain ⟨now, _, h⟩ := sysInv_run n L T0 hn hL hd hT0 _ [] T0 (sysInv_new n L T0 maxSize maxFiles) evs mono ok
+  exact ⟨now, by simpa using h⟩
 
-theorem run_written (w0 : Writer) (s : St) (evs : List Agg.Ev) (h : s.w = runWrites w0 s.written) :
-    (run s evs).w = runWrites w0 (run s evs).written := by
-  induction evs generalizing s with
-  | nil => exact h
-  | cons ev r ih => exact ih (step s ev) (step_written w0 s ev h)
+/-- **(1) + (2) every active (resource, second) before the latest fetch is logged exactly once, with the reference's fields;
+    nothing else is logged**: among all items ever handed to the writer, those of resource `res` and second `sec` are the one
+    reference item when `sec` lies strictly before the latest aggregate's current second and the second was active — and none
+    otherwise (inactive seconds, seconds not yet covered, seconds and resources without recordings). -/
+theorem each_second_logged_once (res : Bytes) (sec : Nat) :
+    let fin := run (St.new n L T0 maxSize maxFiles) evs
+    (allItems fin.written).filter (fun it => decide (it.ts = sec) && decide (it.res = res)) =
+      if sec < fin.lastFetch.getD 0 ∧ active (secRef (eventsOf res evs) sec) = true
+      then [refItem fin.nodes evs res sec] else [] := by
+  obtain ⟨now, inv⟩ := final_inv n L T0 maxSize maxFiles hn hL hd hT0 evs mono ok
+  exact inv.log res sec
+
+/-- **(2) the fields of the logged item**: counters are the sums over the recorded events of that second, `AvgRt` the total
+    RT over the completions (the plain total without completions), `Concurrency` the peak; time stamp, name, classification -/
+theorem logged_item_eq_reference (res : Bytes) (sec : Nat) (it : Item)
+    (hit : it ∈ allItems (run (St.new n L T0 maxSize maxFiles) evs).written) (hr : it.res = res) (hs : it.ts = sec) :
+    let ref := secRef (eventsOf res evs) sec
+    it.pass = ref.pass ∧ it.block = ref.block ∧ it.complete = ref.complete ∧ it.error = ref.error ∧
+    it.rt = (if ref.complete > 0 then ref.rt / ref.complete else ref.rt) ∧ it.conc = ref.mc ∧ it.occ = 0 ∧
+    it.cls = clsIn (run (St.new n L T0 maxSize maxFiles) evs).nodes res ∧ active ref = true ∧
+    sec < (run (St.new n L T0 maxSize maxFiles) evs).lastFetch.getD 0 := by
+  intro ref
+  have h := each_second_logged_once n L T0 maxSize maxFiles hn hL hd hT0 evs mono ok res sec
+  have hm : it ∈ (allItems (run (St.new n L T0 maxSize maxFiles) evs).written).filter
+      (fun it => decide (it.ts = sec) && decide (it.res = res)) := List.mem_filter.mpr ⟨hit, by simp [hr, hs]⟩
+  rw [h] at hm
+  split_ifs at hm with hc
+  · simp only [List.mem_singleton] at hm
+    subst hm
+    exact ⟨rfl, rfl, rfl, rfl, rfl, rfl, rfl, rfl, hc.2, hc.1⟩
+  · simp at hm
+
+/-- **inactive seconds are not logged** (nor seconds the latest fetch has not covered yet) -/
+theorem inactive_not_logged (res : Bytes) (sec : Nat)
+    (h : active (secRef (eventsOf res evs) sec) = false ∨ (run (St.new n L T0 maxSize maxFiles) evs).lastFetch.getD 0 ≤ sec) :
+    ∀ it ∈ allItems (run (St.new n L T0 maxSize maxFiles) evs).written, ¬ (it.ts = sec ∧ it.res = res) := by
+  intro it hit hc
+  have := logged_item_eq_reference n L T0 maxSize maxFiles hn hL hd hT0 evs mono ok res sec it hit hc.2 hc.1
+  dsimp only at this
+  rcases h with h | h
+  · rw [h] at this; exact Bool.noConfusion this.2.2.2.2.2.2.2.2.1
+  · omega
+
+/-- **(3) the writer's preconditions hold for every aggregator-produced history**: the writer state is the fold of `Write`
+    over the calls made; their seconds increase **strictly** across all fetches (the half-open windows
+    `[lastFetch, curSec)` partition time: no second is ever handed over twice); none is before the second in which the
+    writer was created; every call carries a non-empty list of items of exactly that second. -/
+theorem writer_preconditions_met :
+    let fin := run (St.new n L T0 maxSize maxFiles) evs
+    fin.w = runWrites (Writer.new T0 maxSize maxFiles) fin.written ∧
+    (fin.written.map (·.1)).Pairwise (· < ·) ∧
+    ∀ b ∈ fin.written, T0 / 1000 ≤ b.1 / 1000 ∧ 1000 ∣ b.1 ∧ b.1 < fin.lastFetch.getD 0 ∧ b.2 ≠ [] ∧ ∀ it ∈ b.2, it.ts = b.1 := by
+  obtain ⟨now, inv⟩ := final_inv n L T0 maxSize maxFiles hn hL hd hT0 evs mono ok
+  refine ⟨run_written _ _ evs rfl, inv.wsorted, ?_⟩
+  intro b hb
+  obtain ⟨h1, h2, h3, h4, h5⟩ := inv.wbound b hb
+  refine ⟨?_, h3, h2, h4, h5⟩
+  unfold secOf at h1
+  omega
+
+/-- every item handed to the writer is the reference item of its own (resource, second) -/
+theorem written_item_is_ref (it : Item) (hit : it ∈ allItems (run (St.new n L T0 maxSize maxFiles) evs).written) :
+    it = refItem (run (St.new n L T0 maxSize maxFiles) evs).nodes evs it.res it.ts ∧
+      active (secRef (eventsOf it.res evs) it.ts) = true := by
+  have h := each_second_logged_once n L T0 maxSize maxFiles hn hL hd hT0 evs mono ok it.res it.ts
+  have hm : it ∈ (allItems (run (St.new n L T0 maxSize maxFiles) evs).written).filter
+      (fun x => decide (x.ts = it.ts) && decide (x.res = it.res)) := List.mem_filter.mpr ⟨hit, by simp⟩
+  rw [h] at hm
+  split_ifs at hm with hc
+  · exact ⟨by simpa using hm, hc.2⟩
+  · simp at hm
+
+/-- **end to end** (composition with C17's `search_complete_partial`): provided the reference items fit the wire format
+    (`hfit`: counters below `2^64`, concurrency below `2^32`, names without `|`, LF, CR — C17's `Valid`), a query
+    `FindByTimeAndResource(b, e, res)` on a fresh searcher returns exactly the retained items in range with that resource, in time
+    order; the retained items are a sub-list of the items handed over (each at most once, nothing invented), and every one of
+    them is the active per-second reference item of its resource and second.  `Covered` is C17's hypothesis (the query does not
+    reach into an unindexed head of the log: the regions of `metriclog-first-second` / `-orphan-head`); the creation second of
+    the writer **is** written by the aggregator (`first_second_end_to_end_witness`), so that finding bites end to end. -/
+theorem end_to_end (hT : T0 / 1000 < 2 ^ 64)
+    (hfit : ∀ res sec, active (secRef (eventsOf res evs) sec) = true →
+      Valid (refItem (run (St.new n L T0 maxSize maxFiles) evs).nodes evs res sec))
+    (b e : Nat) (res : Bytes)
+    (hsize : ∀ f ∈ (run (St.new n L T0 maxSize maxFiles) evs).w.files, f.data.length < 2 ^ 64)
+    (hcov : Covered (run (St.new n L T0 maxSize maxFiles) evs).w.files b) :
+    let fin := run (St.new n L T0 maxSize maxFiles) evs
+    (find fin.w.files {} b e res).2 = specFind (retained fin.w.files) b e res ∧
+    (retained fin.w.files).Sublist (allItems fin.written) ∧
+    ∀ x ∈ (find fin.w.files {} b e res).2,
+      x = refItem fin.nodes evs x.res x.ts ∧ active (secRef (eventsOf x.res evs) x.ts) = true ∧
+        inRange b e x = true ∧ resMatch res x = true := by
+  intro fin
+  obtain ⟨hw, _, hwb⟩ := writer_preconditions_met n L T0 maxSize maxFiles hn hL hd hT0 evs mono ok
+  have hvalid : ∀ it ∈ allItems fin.written, Valid it := by
+    intro it hit
+    obtain ⟨h1, h2⟩ := written_item_is_ref n L T0 maxSize maxFiles hn hL hd hT0 evs mono ok it hit
+    rw [h1]; exact hfit it.res it.ts h2
+  have hmemAll : ∀ p ∈ fin.written, ∀ it ∈ p.2, it ∈ allItems fin.written := by
+    intro p hp it hit
+    exact List.mem_flatMap.mpr ⟨p, hp, hit⟩
+  have hv : HistValid fin.written := by
+    intro p hp
+    obtain ⟨_, _, _, hne, hts⟩ := hwb p hp
+    obtain ⟨it, hit⟩ := List.exists_mem_of_ne_nil _ hne
+    refine ⟨?_, fun x hx => hvalid x (hmemAll p hp x hx)⟩
+    rw [← hts it hit]
+    exact (hvalid it (hmemAll p hp it hit)).ts
+  have hsub : (retained fin.w.files).Sublist (allItems fin.written) := by
+    have h := retained_runWrites_sublist (Writer.new T0 maxSize maxFiles) fin.written
+    rw [retained_new, List.nil_append] at h
+    have heq : (fin.written.flatMap fun p => normItems p.1 p.2) = allItems fin.written := by
+      unfold allItems
+      apply List.flatMap_congr
+      intro p hp
+      apply normItems_id
+      intro it hit
+      refine ⟨(hwb p hp).2.2.2.2 it hit, ?_⟩
+      intro hbar
+      exact ((hvalid it (hmemAll p hp it hit)).res BAR hbar).1 rfl
+    rw [heq] at h
+    rw [hw]; exact h
+  have hfind : (find fin.w.files {} b e res).2 = specFind (retained fin.w.files) b e res := by
+    have := search_complete_partial T0 maxSize maxFiles hT fin.written hv b e res (hw ▸ hsize) (hw ▸ hcov)
+    rw [hw]; exact this
+  refine ⟨hfind, hsub, ?_⟩
+  intro x hx
+  rw [hfind] at hx
+  obtain ⟨hx1, hx2⟩ := List.mem_filter.mp hx
+  have hx3 := hsub.subset hx1
+  obtain ⟨h1, h2⟩ := written_item_is_ref n L T0 maxSize maxFiles hn hL hd hT0 evs mono ok x hx3
+  simp only [Bool.and_eq_true] at hx2
+  exact ⟨h1, h2, hx2.1, hx2.2⟩
+
+end main
 
 end Sentinel.AGG
